@@ -10,3 +10,35 @@ package file
 //@   inline
 //@ func (*File).Base
 //@   inline
+
+// Position of an index: nil exactly when the offset is outside the source; otherwise a
+// 1-based line and column inside the file (C19).  strings.Count / LastIndex by their
+// documentation (assumed).
+//@ func (*File).Position
+//@   props C19 C04
+//@   safety C19
+//@   requires fl != nil && 0 <= fl.base && fl.base <= 1099511627776 && -4398046511104 <= int(idx) && int(idx) <= 4398046511104
+//@   ensures (result == nil) <==> (int(idx) - fl.base < 0 || int(idx) - fl.base >= len(fl.src))
+//@   ensures result != nil && fl.sm == nil ==> result.Offset == int(idx) - fl.base
+//@   ensures result != nil && fl.sm == nil ==> result.Line >= 1
+//@   ensures result != nil && fl.sm == nil ==> result.Column >= 1
+//@   ensures result != nil && fl.sm == nil ==> result.Column <= result.Offset + 1
+//@   ensures result != nil && fl.sm == nil ==> result.Filename == fl.name
+//@   nothrow
+
+//@ func (*FileSet).nextBase
+//@   props C19
+//@   safety C19
+//@   requires fs != nil
+//@   nothrow
+//@ spec wfFiles(fs *FileSet) bool = forall i int :: 0 <= i && i < len(fs.files) ==> fs.files[i] != nil && 0 <= fs.files[i].base && fs.files[i].base <= 1099511627776
+//@ func (*FileSet).File
+//@   props C19
+//@   safety C19
+//@   requires fs != nil && wfFiles(fs)
+//@   nothrow
+//@ func (*FileSet).Position
+//@   props C19
+//@   safety C19
+//@   requires fs != nil && wfFiles(fs) && -1099511627776 <= int(idx) && int(idx) <= 1099511627776
+//@   nothrow
